@@ -34,9 +34,9 @@ PROP = {'assumptions': ['tokio paused-clock quiescence barrier: sleep(1ns)/timeo
                'V, calls after done()), of HashMap/HashSetSubscription::{take_initial,recv} in both modes and of the mirror task: for '
                'every initial content, operation list, subscription point, mode and max_size that is not exceeded, the mirror ends with '
                'exactly the observed contents, done iff done() was called, complete, no error; the hand-consumed event stream gives the '
-               'same contents. Proved for all inputs outside two decidable classes that the faithful model refutes with vm_compute '
-               'witnesses (F4: retain closure changes a kept value; F11: incremental subscription of a non-empty collection made after '
-               'done()). Operation and event constructors are tied to the mutator/variant lists regenerated from the Rust source; the '
+               'same contents. Hash set: proved without exception. Hash map: proved for all inputs outside one decidable class that the faithful '
+               'model refutes with a vm_compute witness (F4: retain closure changes a kept value); the former class F11 (incremental '
+               'subscription after done()) is repaired in /repo (290b96a), modelled as repaired and no longer excluded. Operation and event constructors are tied to the mutator/variant lists regenerated from the Rust source; the '
                'transcription is tied to the code by a differential run of the real collections, a real local mirror() and a hand-held '
                'subscription.',
  'props_files': ['Props/C13_Vec.v', 'Props/C13_VecDeque.v', 'Props/C13_List.v', 'Props/C13_HashMap.v', 'Props/C13_HashSet.v'],
